@@ -103,7 +103,8 @@ fn route<T>(
         key.sort();
         table.entry(key).or_default().push(Obs {
             val: got[s],
-            tol: K * u * mag[s],
+            // absolute floor: parts in the subnormal range of f32 lose relative accuracy
+            tol: K * u * mag[s] + if T::IS_F32 { 1e-30 } else { 1e-290 },
             tname: tname.to_string(),
             seed: seed.clone(),
             slot: s,
